@@ -197,6 +197,8 @@ def create_table(
         # be keyed by a grammar symbol.
         closure(state, itemset_type, first_sets)
         states.append(state)
+        if _verif.ON:
+            _verif.emit("tbl_pop", state=state)
 
         # To find out other states we examine following grammar symbols in the
         # current state (symbols following current position/"dot") and group all
@@ -271,6 +273,15 @@ def create_table(
                                 grammar, state_id, _old_start_production_rhs
                             )
 
+            if _verif.ON:
+                _verif.emit(
+                    "tbl_goto",
+                    state=state,
+                    symbol=symbol,
+                    target=target_state,
+                    created=target_state is maybe_new_state,
+                )
+
             # Create entries in GOTO and ACTION tables
             if isinstance(symbol, NonTerminal):
                 # For each non-terminal symbol we create an entry in GOTO
@@ -317,6 +328,9 @@ def create_table(
                         if this_item.follow.difference(next_item.follow):
                             update = True
                             next_item.follow.update(this_item.follow)
+
+    if _verif.ON:
+        _verif.emit("tbl_states", states=states)
 
     if debug:
         h_print(
